@@ -753,7 +753,12 @@ def broadcast_shape(I, s1, s2):
             return s1
         raise Unsupported(f'broadcast of opaque shapes {s1} {s2}')
     if len(s1) != len(s2):
-        raise Unsupported('broadcast of different ranks')
+        # numpy aligns shapes at the trailing dimension: the shorter one behaves as if it had leading dimensions of size 1
+        k = abs(len(s1) - len(s2))
+        if len(s1) < len(s2):
+            s1 = (1,) * k + tuple(s1)
+        else:
+            s2 = (1,) * k + tuple(s2)
     out = []
     for x, y in zip(s1, s2):
         if isinstance(x, int) and x == 1:
@@ -787,6 +792,12 @@ def arr_elem(v, idx, shape):
             # size-1 broadcasting
             idx2 = tuple(0 if (isinstance(d, int) and d == 1 and not (isinstance(sd, int) and sd == 1)) else i
                          for i, d, sd in zip(idx, v.shape, shape))
+            return v.fn(idx2)
+        if isinstance(v.shape, tuple) and isinstance(shape, tuple) and len(v.shape) < len(shape):
+            # lower rank: aligned at the trailing dimensions (the leading indices do not matter)
+            k = len(shape) - len(v.shape)
+            idx2 = tuple(0 if (isinstance(d, int) and d == 1 and not (isinstance(sd, int) and sd == 1)) else i
+                         for i, d, sd in zip(idx[k:], v.shape, shape[k:]))
             return v.fn(idx2)
         return v.fn(idx)
     return v
